@@ -12,6 +12,10 @@ OUT = '/verif/mutants'
 
 # (name, properties, tier, file, old, new, comment)
 CAT = [
+    ('m_c16_gmo_exception_escapes', 'C16', 'quick', 'txdbus/objects.py',
+     "            except Exception as e:\n                # a property value that cannot be encoded must not cost the\n",
+     "            except ZeroDivisionError as e:\n                # a property value that cannot be encoded must not cost the\n",
+     'an unencodable property value makes GetManagedObjects raise into dataReceived (the original defect)'),
     ('m_c04_endian_sticky', 'C04', 'quick', 'txdbus/protocol.py',
      "                    else:\n                        self._endian = '<'\n", "",
      'byte order is not reset to little endian after a big-endian message'),
